@@ -145,6 +145,7 @@ type (
 	Member struct {
 		X    Expr
 		Name string
+		Op   string // "" (`.`), "->" or "~>" (field of an any-object by name)
 	}
 	Assign struct {
 		Op   string // "=", "+=", ...
@@ -339,8 +340,9 @@ func Bin(op string, l, r Expr) Expr { return &Infix{op, l, r} }
 func Un(op string, x Expr) Expr { return &Prefix{op, x} }
 func CallN(fn string, args ...Expr) Expr { return &Call{&Ident{fn}, args} }
 func CallE(fn Expr, args ...Expr) Expr   { return &Call{fn, args} }
-func Mem(x Expr, n string) Expr { return &Member{x, n} }
-func MCall(x Expr, n string, args ...Expr) Expr { return &Call{&Member{x, n}, args} }
+func Mem(x Expr, n string) Expr { return &Member{X: x, Name: n} }
+func Arrow(x Expr, op, n string) Expr { return &Member{X: x, Name: n, Op: op} }
+func MCall(x Expr, n string, args ...Expr) Expr { return &Call{&Member{X: x, Name: n}, args} }
 func Idx(x, i Expr) Expr        { return &Index{x, i} }
 func Asg(op string, l, r Expr) Expr { return &Assign{op, l, r} }
 func List(es ...Expr) Expr      { return &ListLit{es} }
